@@ -230,6 +230,62 @@ def batch_data_sensitivity(ctx):
     ctx.note_batch("wrapped-data-sensitivity", cases, dis, exhaustive=False, sizes=sizes)
 
 
+def batch_scalar_sensitivity(ctx):
+    """the key depends on every scalar constant of the expression: graphs built the same way from two scalars (Python
+    and NumPy, real / complex / integer / Boolean, several widths) whose RESULTS differ (dtype or any value, as
+    computed by the reference evaluator) must get different keys"""
+    import itertools
+    import numpy as np
+    import pymbolic.primitives as prim
+    import pytato as pt
+    from pytato.analysis import PytatoKeyBuilder
+    from ..refeval import evaluate
+    keyb = PytatoKeyBuilder()
+    consts = [1, 2, 3, True, 1.0, 2.0, 2.5, -2.5, 1 + 2j, 1 + 3j, 1 - 2j, 2j, 3j, 1 + 0j, np.float32(2.5), np.float64(2.5),
+              np.float32(3.5), np.complex64(1 + 2j), np.complex64(1 + 3j), np.complex128(1 + 2j), np.complex128(1 + 3j),
+              np.complex128(1 - 3j), np.complex128(2 + 3j), np.int32(2), np.int64(2), np.int64(3), np.int8(3),
+              np.float64(1e300), np.float64(1.0000000000000002), np.float32(1.0000001), np.bool_(True)]
+    bases = {"c128": (pt.make_placeholder("z", (3,), np.complex128), np.array([1 + 1j, -2.5j, 3.25])),
+             "f64": (pt.make_placeholder("z", (3,), np.float64), np.array([1.5, -2.0, 3.25])),
+             "i32": (pt.make_placeholder("z", (3,), np.int32), np.array([1, -2, 3], dtype=np.int32))}
+
+    def raw_il(z, c):
+        return pt.IndexLambda(expr=prim.Sum((prim.Subscript(prim.Variable("_in0"), (prim.Variable("_0"),)), c)),
+                              shape=(3,), dtype=np.result_type(z.dtype, np.asarray(c).dtype), bindings={"_in0": z},
+                              axes=pt.array._get_default_axes(1), tags=frozenset(), var_to_reduction_descr={})
+    routes = {"mul": lambda z, c: z * c, "radd": lambda z, c: c + z, "full": lambda z, c: pt.full((3,), c) + z,
+              "where": lambda z, c: pt.where(pt.equal(z, z), c, z), "maximum": lambda z, c: pt.maximum(z, c),
+              "raw-index-lambda": raw_il, "rpow": lambda z, c: c ** z}
+    cases = dis = built = 0
+    for (bn, (z, val)), (rn, route) in itertools.product(bases.items(), routes.items()):
+        rows = []
+        for c in consts:
+            if rn == "maximum" and (bn == "c128" or isinstance(c, (complex, np.complexfloating))):
+                continue
+            try:
+                g = route(z, c)
+                with np.errstate(all="ignore"):
+                    ref = np.asarray(evaluate(g, {"z": val}))
+            except Exception:   # noqa: BLE001  (a route some scalar type does not admit)
+                continue
+            built += 1
+            rows.append((c, g, keyb(g), ref))
+        for (c1, g1, k1, r1), (c2, g2, k2, r2) in itertools.combinations(rows, 2):
+            differ = g1.dtype != g2.dtype or r1.dtype != r2.dtype or not np.array_equal(r1, r2, equal_nan=True)
+            if not differ:
+                continue
+            cases += 1
+            if k1 == k2:
+                dis += 1
+                ctx.violation(f"key-not-injective:scalar-constant:{rn}",
+                              f"{rn} on a {bn} array with the constants {c1!r} ({type(c1).__name__}) and {c2!r} "
+                              f"({type(c2).__name__}) gives results {r1.tolist()} ({r1.dtype}) and {r2.tolist()} "
+                              f"({r2.dtype}) but one persistent key",
+                              {"route": rn, "base": bn, "constants": [repr(c1), repr(c2)]})
+    ctx.note_batch("scalar-constant-sensitivity", cases, dis, exhaustive=False, graphs_built=built,
+                   routes=sorted(routes), constants=[f"{type(c).__name__}:{c!r}" for c in consts])
+
+
 def correspondence(ctx, t, seed, n_graphs, n_mut):
     from pytato.analysis import PytatoKeyBuilder
     keyb = PytatoKeyBuilder()
@@ -340,6 +396,7 @@ def run(ctx: common.Ctx):
         else:
             ctx.coverage["unexplained_build_errors"] = rest
     batch_data_sensitivity(ctx)
+    batch_scalar_sensitivity(ctx)
     from .c04 import batch_spellings
     batch_spellings(ctx)       # equal nodes (arguments spelled differently) must get one key
     n_graphs, n_mut = (1500, 6) if ctx.thorough else (150, 3)
